@@ -26,7 +26,8 @@ var leafFuncs = map[string][]string{
 	"internal/phase5": {"startPoint", "endPoint", "straight", "nonTerminalPoint", "isVerticallyAligned"},
 	// the numerical geometry has no model; its leaf functions are translated so that theorems can be stated about the code's own
 	// Bernstein basis, curve evaluation, power-basis coefficients, orientation test and linear solver
-	"internal/geom": {"b30", "b31", "b30pb31", "b32", "b33", "b32pb33", "ctrlp.coeff", "ctrlp.curvep", "orientation", "aeq0", "solve1"},
+	"internal/geom": {"b30", "b31", "b30pb31", "b32", "b33", "b32pb33", "ctrlp.coeff", "ctrlp.curvep", "orientation", "aeq0", "solve1",
+		"addp", "subp", "scalep", "dotp", "sqdistp", "sign"},
 }
 
 type trErr struct{ msg string }
@@ -226,12 +227,12 @@ func (t *tr) expr(e ast.Expr) string {
 		}
 		if strings.HasSuffix(t.typeOf(x).String(), "internal/geom.P") && len(x.Elts) == 2 {
 			var fs []string
-			for _, el := range x.Elts {
-				kv, ok := el.(*ast.KeyValueExpr)
-				if !ok {
-					bad("composite literal %s", src(x))
+			for i, el := range x.Elts {
+				if kv, ok := el.(*ast.KeyValueExpr); ok {
+					fs = append(fs, src(kv.Key)+" := "+t.expr(kv.Value))
+				} else { // positional: X, Y
+					fs = append(fs, []string{"X", "Y"}[i]+" := "+t.expr(el))
 				}
-				fs = append(fs, src(kv.Key)+" := "+t.expr(kv.Value))
 			}
 			return "({ " + strings.Join(fs, ", ") + " } : GP)"
 		}
